@@ -30,6 +30,8 @@ CONSTANTS Inputs,       \* raw input classes used (for every step and signal)
           ShortSteps,   \* steps whose input object and signal data object have EXACTLY ONE property: a bare value
                         \* that is not a map is shorthand for the object with that property
           ShortInputs,  \* accepted raw input classes used, in addition, for the steps in ShortSteps: "vs"
+          Displays,     \* display shapes used
+          PerStep,      \* TRUE: every assignment of a shape to each step; FALSE: all steps the same shape
           BehSet,       \* step handler behaviours used
           ExtraBehs,    \* further entries of the (output ID class x data class) product, enumerated for every step
                         \* but on one run and one accepted input only (the outcome depends on neither)
@@ -53,6 +55,8 @@ B1 == IF "ok" \in BehSet THEN "ok" ELSE B0
 ASSUME MapInputs \subseteq ValidInputs
 ASSUME MapBehs \subseteq Behs
 ASSUME ShortInputs \subseteq ValidInputs
+ASSUME Displays \subseteq DisplayShapes /\ Displays # {}
+DisplayAssignments == IF PerStep THEN [StepIds -> Displays] ELSE {[s \in StepIds |-> d] : d \in Displays}
 ASSUME BehSet \subseteq Behs /\ ExtraBehs \subseteq Behs /\ MapExtraBehs \subseteq Behs
 
 StepCalls ==
@@ -78,7 +82,7 @@ SignalCalls ==
 Calls == StepCalls \cup SignalCalls
 
 MCInit ==
-    /\ \E cv \in [Procs -> Calls] : InitWith(cv)
+    /\ \E cv \in [Procs -> Calls] : \E d \in DisplayAssignments : InitWith(cv, d)
     /\ hist = <<>>
     /\ racy = FALSE
 
@@ -105,12 +109,12 @@ MCSpec == MCInit /\ [][MCNext]_mcvars
 
 NoStuckMC == AllDone \/ ENABLED MCNext
 
-ModelOK == HandlerIffValid /\ ExactArgument /\ ErrorClass /\ InitOncePerRun /\ NoStuckMC
+ModelOK == HandlerIffValid /\ ExactArgument /\ ErrorClass /\ DisplayBlind /\ InitOncePerRun /\ NoStuckMC
 
 \* terminal states carry one complete schedule each
 Export ==
     (AllDone /\ KeepHist) =>
         Emit([calls |-> call, hist |-> hist, ledger |-> ledger, res |-> res,
               ic |-> initCount, sd |-> stepData, racy |-> racy, noinit |-> NoInitSteps,
-              mapsteps |-> MapSteps, shortsteps |-> ShortSteps])
+              mapsteps |-> MapSteps, shortsteps |-> ShortSteps, display |-> display])
 =============================================================================
